@@ -5,7 +5,7 @@ coverage/<prop>.json lists, per source file, the executed lines and — function
 no case reached.  Uses `sys.monitoring` (Python 3.12): every line location reports once and is then switched
 off, so the overhead is small.  Forked children (pty hosts, crash children) inherit the monitor; they append
 what they saw to coverage/.parts/<prop>/ when they leave through `os._exit` (wrapped here) or normally.
-Processes started with exec (the CLI stress, dash/bash) are not measured."""
+Python processes started with exec (pty hosts, CLI runs) measure themselves through harness/covsite/sitecustomize.py."""
 from __future__ import annotations
 
 import ast
@@ -31,6 +31,11 @@ def start(prop: str, repo: Path, outdir: Path):
     for f in parts.glob("*.json"):
         f.unlink()
     _state.update(prop=prop, prefix=prefix, dir=parts, pid=os.getpid(), repo=str(repo), out=str(outdir))
+    # python children started with exec measure themselves (harness/covsite/sitecustomize.py)
+    site = str(Path(__file__).resolve().parent / "covsite")
+    os.environ["PYTHONPATH"] = site + (os.pathsep + os.environ["PYTHONPATH"] if os.environ.get("PYTHONPATH") else "")
+    os.environ["VERIF_COV_DIR"] = str(parts)
+    os.environ["VERIF_COV_PREFIX"] = prefix
     tool = mon.COVERAGE_ID
     mon.use_tool_id(tool, "verif-cov")
 
